@@ -20,7 +20,8 @@ is proved at the strength of the property: `proj_segment_nearest_partial` (one s
 to it, minimal), `proj_segment_horizontal` (closed form for horizontal segments), `proj_polyline_vertices` and
 `proj_polyline_nearest_partial` (polyline: index of the carrying segment, point on it, distance to it, minimal
 over every point of every segment, the skipped zero-length segments included), `proj_polyline_skipped_partial` (a skipped
-segment of non-zero length `< 1e-16` touching a kept one is covered up to `1e-16`). IEEE rounding is outside these
+segment of non-zero length `< 1e-16` touching a kept one is covered up to `1e-16`), `proj_polyline_skipped_run` /
+`proj_polyline_skipped_run_back` (a run of `k` consecutive skipped segments from a kept end: up to `k · 1e-16`). IEEE rounding is outside these
 statements (the horizontal-segment defect D17 and its near-vertical counterpart exist only in floating point).
 
 Front ends (second half of the file): the argument forms of `proj_segment` / `proj_polyligne` (lists vs numpy
@@ -450,8 +451,8 @@ its two ends is also an end of a segment that is kept (the usual case: an isolat
 ones), then for every point `(qx, qy)` of the skipped segment `d ≤ |query - (qx, qy)| + eps` (the distance written with
 the `sqrt` parameter). Together with `proj_polyline_min_partial` (kept segments): on a polyline without kept vertical
 segment whose skipped segments each touch a kept one, the returned distance exceeds the true minimum by less than `eps`.
-Missing: a run of several consecutive skipped segments (the bound is then the length of the run up to the nearest kept
-end; not stated). Exact arithmetic. -/
+A run of several consecutive skipped segments: `proj_polyline_skipped_run` / `proj_polyline_skipped_run_back` below (the
+bound is then the number of skipped segments up to the nearest kept end, times `eps`). Exact arithmetic. -/
 theorem proj_polyline_skipped_partial {sqrt : α → α} (hs : SqrtSpec sqrt) (eps : α) (pts : List (α × α))
     (x y d px py : α) (i : Nat) (h : projPolyligne sqrt eps pts x y = .ok (d, px, py, i))
     (j : Nat) (p1 p2 : α × α) (h1 : pts[j]? = some p1) (h2 : pts[j + 1]? = some p2)
@@ -482,6 +483,88 @@ theorem proj_polyline_skipped_partial {sqrt : α → α} (hs : SqrtSpec sqrt) (e
 distance 3 (every point of the skipped segment is farther than 3 anyway: the bound `d ≤ |q - p| + eps` holds with room) -/
 example : (projPolyligne sqTable 1 [(-4, 3), (4, 3), (4, 7 / 2)] 0 0).toOption = some (3, 0, 3, 0)
     ∧ skipped (1 : Rat) 4 3 4 (7 / 2) = true ∧ skipped (1 : Rat) (-4) 3 4 3 = false := by decide +kernel
+
+/-- `proj_polyline_skipped_run`: a RUN of consecutive skipped segments of non-zero length (each `abs(dx) + abs(dy) < eps`,
+`1e-16`), going FORWARD from a vertex `v` that is an end of a kept segment: if `proj_polyligne` returns `(d, …)`, every point
+`(qx, qy)` of the `(t+1)`-th segment of the run satisfies `d ≤ |query - (qx, qy)| + (t + 1) * eps` — the error made by skipping
+the run is at most the number of skipped segments walked from the nearest kept end, times the threshold. With
+`proj_polyline_skipped_run_back` (runs going backward to a kept end) and `proj_polyline_min_partial` this covers every point of a
+polyline that has a kept segment (a maximal run of skipped segments always touches a kept segment at one of its ends, unless
+every segment is skipped — then `proj_polyligne` raises): without kept vertical segment the returned distance exceeds the true
+minimum by at most (longest run) × `eps`. `proj_polyline_skipped_partial` is the case `r = 1`. Exact arithmetic. -/
+theorem proj_polyline_skipped_run {sqrt : α → α} (hs : SqrtSpec sqrt) (eps : α) (pts : List (α × α))
+    (x y d px py : α) (i : Nat) (h : projPolyligne sqrt eps pts x y = .ok (d, px, py, i))
+    (v r : Nat) (pv : α × α) (hv : pts[v]? = some pv)
+    (hadj : ∃ k q1 q2, pts[k]? = some q1 ∧ pts[k + 1]? = some q2 ∧ skipped eps q1.1 q1.2 q2.1 q2.2 = false ∧
+      (q1 = pv ∨ q2 = pv))
+    (hrun : ∀ t, t < r → ∀ a b, pts[v + t]? = some a → pts[v + t + 1]? = some b → skipped eps a.1 a.2 b.1 b.2 = true) :
+    ∀ t, t < r → ∀ a b, pts[v + t]? = some a → pts[v + t + 1]? = some b →
+      ∀ qx qy, OnSeg a.1 a.2 b.1 b.2 qx qy → d ≤ sqrt (d2 x y qx qy) + ((t + 1 : Nat) : α) * eps := by
+  obtain ⟨_, d0, _, hall⟩ := proj_polyline_min_partial hs eps pts x y d px py i h
+  obtain ⟨k, q1, q2, k1, k2, hk, hends⟩ := hadj
+  obtain ⟨⟨b1, b2⟩, _⟩ := hall k q1 q2 k1 k2 hk
+  have hvd : d * d ≤ d2 x y pv.1 pv.2 := by
+    rcases hends with e | e
+    · rw [← e]; exact b1
+    · rw [← e]; exact b2
+  intro t ht a b ha hb qx qy hq
+  have hlt : fabs (a.1 - b.1) + fabs (a.2 - b.2) < eps := by
+    simpa [skipped] using hrun t ht a b ha hb
+  obtain ⟨n1, _⟩ := onSeg_near_ends _ _ _ _ _ _ hq
+  obtain ⟨e0, ee⟩ := hs _ (d2_nonneg x y qx qy)
+  have hr := run_near eps pts v t pv a hv ha (fun s hs' a' b' ha' hb' => hrun s (Nat.lt_trans hs' ht) a' b' ha' hb')
+  have t1 : |qx - pv.1| ≤ |qx - a.1| + |a.1 - pv.1| := abs_sub_le _ _ _
+  have t2 : |qy - pv.2| ≤ |qy - a.2| + |a.2 - pv.2| := abs_sub_le _ _ _
+  refine near_vertex_bound x y pv.1 pv.2 qx qy d _ _ d0 e0 hvd ee ?_
+  push_cast
+  linarith
+
+/-- `proj_polyline_skipped_run_back`: the same for a run of skipped segments `w, …, w + r - 1` going BACKWARD from the vertex
+`w + r`, an end of a kept segment: every point of segment `w + t` of the run satisfies
+`d ≤ |query - (qx, qy)| + (r - t) * eps`. Exact arithmetic. -/
+theorem proj_polyline_skipped_run_back {sqrt : α → α} (hs : SqrtSpec sqrt) (eps : α) (pts : List (α × α))
+    (x y d px py : α) (i : Nat) (h : projPolyligne sqrt eps pts x y = .ok (d, px, py, i))
+    (w r : Nat) (pv : α × α) (hv : pts[w + r]? = some pv)
+    (hadj : ∃ k q1 q2, pts[k]? = some q1 ∧ pts[k + 1]? = some q2 ∧ skipped eps q1.1 q1.2 q2.1 q2.2 = false ∧
+      (q1 = pv ∨ q2 = pv))
+    (hrun : ∀ t, t < r → ∀ a b, pts[w + t]? = some a → pts[w + t + 1]? = some b → skipped eps a.1 a.2 b.1 b.2 = true) :
+    ∀ t, t < r → ∀ a b, pts[w + t]? = some a → pts[w + t + 1]? = some b →
+      ∀ qx qy, OnSeg a.1 a.2 b.1 b.2 qx qy → d ≤ sqrt (d2 x y qx qy) + ((r - t : Nat) : α) * eps := by
+  obtain ⟨_, d0, _, hall⟩ := proj_polyline_min_partial hs eps pts x y d px py i h
+  obtain ⟨k, q1, q2, k1, k2, hk, hends⟩ := hadj
+  obtain ⟨⟨b1, b2⟩, _⟩ := hall k q1 q2 k1 k2 hk
+  have hvd : d * d ≤ d2 x y pv.1 pv.2 := by
+    rcases hends with e | e
+    · rw [← e]; exact b1
+    · rw [← e]; exact b2
+  intro t ht a b ha hb qx qy hq
+  have hlt : fabs (a.1 - b.1) + fabs (a.2 - b.2) < eps := by
+    simpa [skipped] using hrun t ht a b ha hb
+  obtain ⟨_, n2⟩ := onSeg_near_ends _ _ _ _ _ _ hq
+  obtain ⟨e0, ee⟩ := hs _ (d2_nonneg x y qx qy)
+  have hidx : w + t + 1 + (r - t - 1) = w + r := by omega
+  have hr := run_near eps pts (w + t + 1) (r - t - 1) b pv hb (by rw [hidx]; exact hv)
+    (fun s hs' a' b' ha' hb' => hrun (t + 1 + s) (by omega) a' b'
+      (by rw [show w + (t + 1 + s) = w + t + 1 + s by omega]; exact ha')
+      (by rw [show w + (t + 1 + s) + 1 = w + t + 1 + s + 1 by omega]; exact hb'))
+  have t1 : |qx - pv.1| ≤ |qx - b.1| + |b.1 - pv.1| := abs_sub_le _ _ _
+  have t2 : |qy - pv.2| ≤ |qy - b.2| + |b.2 - pv.2| := abs_sub_le _ _ _
+  rw [abs_sub_comm b.1 pv.1] at t1
+  rw [abs_sub_comm b.2 pv.2] at t2
+  refine near_vertex_bound x y pv.1 pv.2 qx qy d _ _ d0 e0 hvd ee ?_
+  have hc : ((r - t : Nat) : α) = ((r - t - 1 : Nat) : α) + 1 := by
+    have : r - t = (r - t - 1) + 1 := by omega
+    rw [this]; push_cast; simp
+  rw [hc]
+  linarith
+
+/-- non-vacuity of the two run theorems, evaluated on the model (`eps = 1`): `(-4,3),(4,3),(4,13/4),(4,7/2)` — the two last
+segments (length `1/4` each) are skipped, a forward run from the end `(4,3)` of the kept segment 0; the query `(0,0)` →
+segment 0 at distance 3. Reversed polyline: a backward run ending at vertex 2, the answer is carried by segment 2 -/
+example : (projPolyligne sqTable 1 [(-4, 3), (4, 3), (4, 13 / 4), (4, 7 / 2)] 0 0).toOption = some (3, 0, 3, 0)
+    ∧ skipped (1 : Rat) 4 3 4 (13 / 4) = true ∧ skipped (1 : Rat) 4 (13 / 4) 4 (7 / 2) = true
+    ∧ (projPolyligne sqTable 1 [(4, 7 / 2), (4, 13 / 4), (4, 3), (-4, 3)] 0 0).toOption = some (3, 0, 3, 2) := by decide +kernel
+
 
 /-! ## Argument forms and front ends -/
 
